@@ -297,6 +297,20 @@ func Apply(dialect string, m *gm.Schema, e EditRef) ([]string, error) {
 		cc := strings.SplitN(e.Arg, "/", 2)
 		c.Charset, c.Collation = cc[0], cc[1]
 		return []string{p + "ModifyColumn(" + e.Obj + ",charset+collate)"}, nil
+	case "drop-checked-column":
+		for i := range t.Checks {
+			if t.Checks[i].Name == e.Obj && t.Checks[i].Expr == e.Arg {
+				t.Checks = append(t.Checks[:i], t.Checks[i+1:]...)
+				break
+			}
+		}
+		for i := range t.Cols {
+			if t.Cols[i].Name == e.Obj {
+				t.Cols = append(t.Cols[:i], t.Cols[i+1:]...)
+				return []string{p + "DropColumn(" + e.Obj + ")", p + "DropCheck(" + e.Obj + "|" + e.Arg + ")"}, nil
+			}
+		}
+		return nil, fmt.Errorf("harness: drop-checked-column %+v", e)
 	case "drop-indexed-column":
 		for i := range t.Indexes {
 			if t.Indexes[i].Name == e.Arg {
